@@ -44,8 +44,10 @@ def make_host(g: dict):
                backlight_pin=(9 if g["blpin"] else None))
 
 
-def host_call(lcd, c: dict) -> None:
+def host_call(lcd, c: dict, j: int = 0) -> None:
     a, i, t, s, b = c["act"], c["i"], c["t"], c["s"], c["b"]
+    if a in ("write", "line", "message"):
+        s = [spell(x, 0, j + n) for n, x in enumerate(s)]      # labels in any letter case, as on the firmware side
     if a == "write":
         lcd.write(i[0], i[1], text(t[0]), clear_row=b[0], align=s[0])
     elif a == "line":
@@ -89,9 +91,9 @@ INIT = {"act": "init", "i": [], "t": [], "s": [], "b": []}
 def host_trace(g: dict, h: list) -> list:
     lcd = make_host(g)
     out = [host_obs(lcd, INIT, "init")]
-    for c in h:
+    for j, c in enumerate(h, 1):
         try:
-            host_call(lcd, c)
+            host_call(lcd, c, j)
             res = "ok"
         except Exception:          # the class of the exception is not part of the property
             res = "raise"
@@ -104,9 +106,20 @@ def _b(v: bool) -> str:
     return "True" if v else "False"
 
 
-def render(cases: list, runtime: bool) -> Script:
-    """cases: [{"g":…, "h":[calls]}] -> one packed script, one display per case."""
+def spell(label: str, k: int, j: int) -> str:
+    """The host API takes alignment / style labels in any letter case; every third call spells them differently."""
+    m = (k + j) % 3
+    return label if m == 0 else (label.capitalize() if m == 1 else label.upper())
+
+
+def render(cases: list, runtime) -> Script:
+    """cases: [{"g":…, "h":[calls]}] -> one packed script, one display per case.
+    runtime: False (literals) | True (run-time values) | one of fw_act.ROUTINGS (values and flags through variables)."""
     s = Script(runtime)
+    routed = isinstance(runtime, str) and runtime not in ("lit", "rt")
+
+    def fb(v: bool) -> str:
+        return s.flag(v) if routed else _b(v)
 
     def iv(v: int) -> str:
         if not runtime or v < -OFFSET:
@@ -126,16 +139,16 @@ def render(cases: list, runtime: bool) -> Script:
         for j, c in enumerate(case["h"], 1):
             a, i, t, st, b = c["act"], c["i"], c["t"], c["s"], c["b"]
             if a == "write":
-                s.add(f"{n}.write({iv(i[0])}, {iv(i[1])}, {text(t[0])!r}, clear_row={_b(b[0])}, align={st[0]!r})")
+                s.add(f"{n}.write({iv(i[0])}, {iv(i[1])}, {text(t[0])!r}, clear_row={fb(b[0])}, align={spell(st[0], k, j)!r})")
             elif a == "line":
-                s.add(f"{n}.line({iv(i[0])}, {text(t[0])!r}, align={st[0]!r}, clear_row={_b(b[0])})")
+                s.add(f"{n}.line({iv(i[0])}, {text(t[0])!r}, align={spell(st[0], k, j)!r}, clear_row={fb(b[0])})")
             elif a == "message":
                 args = [(repr(text(t[0])) if b[1] else "None"), (repr(text(t[1])) if b[2] else "None")]
-                s.add(f"{n}.message({args[0]}, {args[1]}, top_align={st[0]!r}, bottom_align={st[1]!r}, clear_rows={_b(b[0])})")
+                s.add(f"{n}.message({args[0]}, {args[1]}, top_align={spell(st[0], k, j)!r}, bottom_align={spell(st[1], k, j + 1)!r}, clear_rows={fb(b[0])})")
             elif a == "clear":
                 s.add(f"{n}.clear()")
             elif a in ("display", "backlight"):
-                s.add(f"{n}.{a}({_b(b[0])})" if not runtime else f"{n}.{a}({s.val(1 if b[0] else 0)} > 0)")
+                s.add(f"{n}.{a}({fb(b[0])})" if (not runtime or routed) else f"{n}.{a}({s.val(1 if b[0] else 0)} > 0)")
             elif a == "brightness":
                 s.add(f"{n}.brightness({iv(i[0])})")
             elif a == "glyph":
